@@ -196,6 +196,7 @@ async def _scenario(loop, sim, hosts, events, seed):
             harness_cancelled = set()
             groups = []  # (timestamp, set of targeted addresses) while one connector keeps retrying
             for ev in events:
+                hosts_before = list(conn.hosts)
                 f = ev.split(":")
                 k = f[0]
                 mtok = model_token(ev)
@@ -339,13 +340,15 @@ async def _scenario(loop, sim, hosts, events, seed):
                     problems.append(("retries-ended", f"after {ev}: connector finished ({cs}), pairing not connected, close() not called - nothing will retry"))
                 if cs.startswith("exc:"):
                     problems.append(("retries-ended", f"after {ev}: connector died with {cs[4:]}"))
-                # C10: no busy loop - attempts at one instant are bounded by the address list
-                H = max(len(conn.hosts), 1)
+                # C10: no busy loop - attempts at one instant are bounded by the address list (the longer of the lists in
+                # force before and after this event: a zeroconf update may have replaced it while attempts were under way)
+                H = max(len(conn.hosts), len(hosts_before), 1)
+                bound = H * H + H + (H * H + H if list(conn.hosts) != hosts_before else 0)  # one round per list in force
                 by_t = {}
                 for t, hs in new:
                     by_t[t] = by_t.get(t, 0) + 1
                 for t, n_at in by_t.items():
-                    if n_at > H * H + H:
+                    if n_at > bound:
                         problems.append(("busy-loop", f"after {ev}: {n_at} connection attempts at the same instant t={t / UNIT:.3f}s with {H} addresses"))
                 ts = sorted(by_t)
                 if k == "a":
